@@ -30,7 +30,11 @@ class Ctx:
                 shutil.rmtree(d, ignore_errors=True)
                 d = facts.extract(config)
                 raw = facts.load_raw(d)
+            from . import inline
+
+            self.inline_report = inline.transform(raw)
             p = core.Program(raw)
+            p.inline_report = self.inline_report
             p.config = config
             p.factdir = d
             self._progs[config] = p
